@@ -234,6 +234,8 @@ ShapeOpsPreserveUnits ==
               /\ b > a => Iterate(Slice(X0, a, b)) = SubSeq(Iterate(X0), a + 1, b)
               /\ Size(Slice(X0, a, b).shape) = Len(Slice(X0, a, b).cell)
   /\ Combine(<<X0, T0>>) = Obj(<<Size(sx) + Size(st)>>, X0.cell \o [p \in 1..Size(st) |-> p])
+  /\ Combine(<<X0>>) = Flatten(X0)
+  /\ Combine(<<X0, T0, X0>>) = Combine(<<Combine(<<X0, T0>>), X0>>)
   /\ Stack(<<X0, X0>>).shape = <<2>> \o sx /\ Index(Stack(<<X0, X0>>), 1) = X0
 
 \* X[i] = Y puts (the broadcast of) Y at i and leaves every other item alone; here Y = T0 with ids
@@ -295,6 +297,9 @@ ObsUnary ==
    stack2 |-> Stack(<<X0, Obj(sx, [p \in 1..Size(sx) |-> Size(sx) + p])>>),
    \* type(X).combine([X0, Y]) for Y of the same and of other shapes (cells of Y: Size(sx) + p)
    combines |-> {<<s, Combine(<<X0, Obj(s, [p \in 1..Size(s) |-> Size(sx) + p])>>)>> : s \in {sx, <<>>, <<2>>, <<1, 3>>}},
+   \* lists of one and of three operands: combine([X0]) is the flattened X0; combine([X0, Y(2,), Z()])
+   combine1 |-> Combine(<<X0>>),
+   combine3 |-> Combine(<<X0, Obj(<<2>>, <<Size(sx) + 1, Size(sx) + 2>>), Obj(<<>>, <<Size(sx) + 3>>)>>),
    tuples |-> {<<ix, IndexTuple(X0, ix).cell>> : ix \in Indices(sx)},
    slices |-> IF sx = <<>> THEN {} ELSE {<<ab[1], ab[2], Slice(X0, ab[1], ab[2])>> : ab \in {c \in (0..(Head(sx) - 1)) \X (1..Head(sx)) : c[1] < c[2]}} ]
 EmitUnary == st # <<>> \/ PrintT("UNARY " \o ToJson(ObsUnary))
